@@ -292,3 +292,30 @@ def connect_site_frames(repo: Repo, reg, prop):
                     continue
                 bad.append(f"{fi.file}:{n.lineno} {fi.qualname}")
     return [{"oid": "frame:streams-opened-only-by-the-establishment-functions", "kind": "frame", "status": "refuted" if bad else "discharged", "witness": {"other_sites": bad} if bad else None}]
+
+
+ALLOWED_DECORATORS = {"property", "staticmethod", "classmethod", "contextmanager", "asynccontextmanager",
+                      "contextlib.contextmanager", "contextlib.asynccontextmanager", "typing.overload"}
+
+
+def decorator_frames(repo: Repo, reg, prop):
+    """A contract is proved about a function's BODY; a decorator that wraps the function (a cache, a retry wrapper, a
+    `functools.wraps` shim) changes what a call does without changing that body.  Obligation per function under contract of
+    this property: its decorators are among the semantic no-ops the verifier understands (property, static/classmethod,
+    [async]contextmanager).  (Wave-4 seed C10-w4-2: `@functools.lru_cache` on default_ssl_context makes every pool share -
+    and mutate - one SSLContext.)"""
+    from .engine import Engine
+
+    out = []
+    for tree in ("async", "sync"):
+        eng = Engine(repo, reg, tree=tree)
+        for key, c in sorted(reg.contracts.items()):
+            if prop not in c.props or c.trusted or tree not in getattr(c, "trees", ("async", "sync")):
+                continue
+            fi = repo.func(eng.tree_name(key))
+            if fi is None:
+                continue
+            bad = [d for d in fi.decorators if d not in ALLOWED_DECORATORS]
+            out.append({"oid": f"{key}:frame:decorators[{tree}]", "kind": "frame", "status": "refuted" if bad else "discharged",
+                        "witness": {"decorators": bad} if bad else None})
+    return out
